@@ -281,11 +281,12 @@ def gen_l3_tasks(r, tier):
     # dynamic parameters, special-case points of arithmetic operations reached through symbolic operands
     grid = [(i, j, (i + j) % 3) for i in range(3) for j in range(3)]
     if tier == "quick":
-        plans = [(None, [], [(1, 2, 1), (0, 1, 2)]), ("0x01", ["--solver", "z3"], [(1, 1, 0), grid[r.randrange(9)]])]
+        plans = [(None, [], [(1, 2, 1), (0, 1, 2)], ["mod", "sdiv", "mul"]), ("0x01", ["--solver", "z3"], [(1, 1, 0), grid[r.randrange(9)]], ["smod", "div"])]
     else:
-        plans = [(L.CODE_OPTIONS[k % len(L.CODE_OPTIONS)], [[], ["--solver", "z3"], ["--storage-layout", "generic"]][k % 3], grid[3 * (k % 3):3 * (k % 3) + 3]) for k in range(9)]
-    for co, extra, combos in plans:
-        d = L.gen_directed_contract(r, co, n_each=2 if tier == "quick" else 4, combos=combos)
+        plans = [(L.CODE_OPTIONS[k % len(L.CODE_OPTIONS)], [[], ["--solver", "z3"], ["--storage-layout", "generic"]][k % 3], grid[3 * (k % 3):3 * (k % 3) + 3],
+                  ["div", "mod", "sdiv", "smod", "mul", None]) for k in range(9)]
+    for co, extra, combos, ops in plans:
+        d = L.gen_directed_contract(r, co, n_each=2 if tier == "quick" else 4, combos=combos, ops=ops)
         tasks.append({"desc": d, "options": (["--panic-error-codes", co] if co else []) + extra + ["--solver-timeout-assertion", "15s"], "code_opt": co,
                       "seed": r.getrandbits(32), "family": "directed", "limit": 100 if tier == "quick" else 200, "timeout": 200})
     for d, co, fam in special_contracts():
